@@ -2,6 +2,7 @@ package main
 
 import (
 	"bytes"
+	"regexp"
 	"context"
 	"fmt"
 	"os"
@@ -63,6 +64,60 @@ func buildQuery(ctx *Ctx, o *Obligation, withValues bool) string {
 	return b.String()
 }
 
+var symRe = regexp.MustCompile(`[A-Za-z_][A-Za-z0-9_.]*[!$][A-Za-z0-9_!$]+|p_[A-Za-z0-9_]+`)
+
+// slicedPC: the path facts within two hops of the goal in the "shares a variable" graph (variables = engine-generated
+// constants; variables that occur in many facts do not connect). Dropping hypotheses is always sound: an `unsat` answer for the
+// sliced query is a proof of the full one.
+func slicedPC(o *Obligation, hops int) []string {
+	syms := func(t string) map[string]bool {
+		m := map[string]bool{}
+		for _, x := range symRe.FindAllString(t, -1) {
+			m[x] = true
+		}
+		return m
+	}
+	facts := make([]map[string]bool, len(o.PC))
+	count := map[string]int{}
+	for i, p := range o.PC {
+		facts[i] = syms(p)
+		for x := range facts[i] {
+			count[x]++
+		}
+	}
+	hub := len(o.PC)/6 + 6
+	cur := syms(o.Goal)
+	keep := make([]bool, len(o.PC))
+	for hop := 0; hop < hops; hop++ {
+		next := map[string]bool{}
+		for x := range cur {
+			next[x] = true
+		}
+		for i, f := range facts {
+			if keep[i] {
+				continue
+			}
+			for x := range f {
+				if cur[x] && count[x] <= hub {
+					keep[i] = true
+					for y := range f {
+						next[y] = true
+					}
+					break
+				}
+			}
+		}
+		cur = next
+	}
+	var out []string
+	for i, p := range o.PC {
+		if keep[i] || len(facts[i]) == 0 {
+			out = append(out, p)
+		}
+	}
+	return out
+}
+
 type solveCfg struct {
 	timeout int
 	dir     string
@@ -115,7 +170,7 @@ func solveOne(ctxc *Ctx, o *Obligation, cfg solveCfg, idx int) {
 		timeout = 2
 	}
 	type ans struct{ solver, res, out string }
-	ch := make(chan ans, len(solvers)+4)
+	ch := make(chan ans, len(solvers)+8)
 	ctx, cancel := context.WithCancel(context.Background())
 	defer cancel()
 	for _, s := range solvers {
@@ -128,6 +183,28 @@ func solveOne(ctxc *Ctx, o *Obligation, cfg solveCfg, idx int) {
 	// second stage of the portfolio: quantifier instantiation is sensitive to the search order, so an obligation that is
 	// still open after a few seconds is also given to z3 with other (fixed) random seeds. Deterministic: same query, same seeds.
 	nExtra := 0
+	if !o.ExpectSat && len(o.PC) > 20 {
+		for _, hops := range []int{1, 2} {
+			sl := slicedPC(o, hops)
+			if len(sl) >= len(o.PC)*3/4 {
+				continue
+			}
+			o2 := *o
+			o2.PC = sl
+			fileS := filepath.Join(cfg.dir, fmt.Sprintf("q%05d_s%d.smt2", idx, hops))
+			os.WriteFile(fileS, []byte(buildQuery(ctxc, &o2, false)), 0o644)
+			nExtra++
+			name := fmt.Sprintf("z3-new(hypotheses within %d hop(s) of the goal)", hops)
+			go func() {
+				sp := solverSpec{name, func(f string, t int) []string { return []string{"z3-new", fmt.Sprintf("-T:%d", t), f} }}
+				r, out := runSolver(ctx, sp, fileS, timeout)
+				if r != "unsat" {
+					r = "unknown" // only a proof transfers from the sliced query to the full one
+				}
+				ch <- ans{sp.name, r, out}
+			}()
+		}
+	}
 	if !o.ExpectSat && timeout > 8 {
 		for _, sd := range []int{3, 5, 11} {
 			sd := sd
